@@ -419,7 +419,10 @@ impl<CS: BbsCiphersuite> PoKSignature<BBSplus<CS>> {
         let api_id = CS::API_ID_BLIND;
 
         let U = proof.m_cap.len();
-        let M = disclosed_indexes.len() + disclosed_commitment_indexes.len() + U - 1 - L;
+        let M = (disclosed_indexes.len() + disclosed_commitment_indexes.len() + U)
+            .checked_sub(1)
+            .and_then(|n| n.checked_sub(L))
+            .ok_or_else(|| Error::PoKSVerificationError("invalid L".to_owned()))?;
 
         let (message_scalars, generators) = prepare_parameters::<CS>(
             Some(disclosed_messages),
